@@ -42,6 +42,48 @@ ATTACH = {
 }
 
 
+ARCSWAP_OLD = '''    #[cfg(not(feature = "experimental-thread-local"))]
+    pub(crate) fn with<R, F: FnOnce(&LocalNode) -> R>(f: F) -> R {
+        let f = Cell::new(Some(f));'''
+ARCSWAP_NEW = '''    // VERIF OVERLAY: under Kani the thread-local fast path is replaced by arc-swap's own
+    // fallback for threads whose TLS is gone (the tmp-node branch below, verbatim): registering a
+    // TLS destructor needs pthread_key_create/__cxa_thread_atexit_impl, which Kani cannot model.
+    #[cfg(kani)]
+    pub(crate) fn with<R, F: FnOnce(&LocalNode) -> R>(f: F) -> R {
+        let tmp_node = LocalNode {
+            node: Cell::new(Some(Node::get())),
+            fast: FastLocal::default(),
+            helping: HelpingLocal::default(),
+        };
+        f(&tmp_node)
+    }
+
+    #[cfg(all(not(feature = "experimental-thread-local"), not(kani)))]
+    pub(crate) fn with<R, F: FnOnce(&LocalNode) -> R>(f: F) -> R {
+        let f = Cell::new(Some(f));'''
+
+
+def vendor_arcswap(dest):
+    """copy arc-swap (the version locked in /repo/Cargo.lock) into the overlay and route its
+    thread-local access through its own no-TLS fallback under cfg(kani)"""
+    import glob
+    lock = open(os.path.join(REPO, "Cargo.lock")).read()
+    m = re.search(r'name = "arc-swap"\nversion = "([^"]+)"', lock)
+    ver = m.group(1)
+    cands = glob.glob(os.path.expanduser("~/.cargo/registry/src/*/arc-swap-%s" % ver))
+    if not cands:
+        raise SystemExit("overlay: arc-swap %s not in the cargo registry cache" % ver)
+    vd = os.path.join(dest, "vendor", "arc-swap")
+    shutil.copytree(cands[0], vd)
+    lp = os.path.join(vd, "src", "debt", "list.rs")
+    src = open(lp).read()
+    if ARCSWAP_OLD not in src:
+        raise SystemExit("overlay: arc-swap %s LocalNode::with has an unexpected shape" % ver)
+    open(lp, "w").write(src.replace(ARCSWAP_OLD, ARCSWAP_NEW, 1))
+    with open(os.path.join(dest, "Cargo.toml"), "a") as fh:
+        fh.write('\n[patch.crates-io]\narc-swap = { path = "vendor/arc-swap" }\n')
+
+
 def build(dest, flavour, harness_files, extra_files=None):
     """harness_files: list of paths; file name `<attach>__<name>.rs` decides where it is attached.
     extra_files: {relative path in overlay: content} written verbatim (generated tables)."""
@@ -55,6 +97,7 @@ def build(dest, flavour, harness_files, extra_files=None):
         toml = _rewrite_cargo_toml(fh.read())
     with open(os.path.join(dest, "Cargo.toml"), "w") as fh:
         fh.write(toml)
+    vendor_arcswap(dest)
     os.makedirs(os.path.join(dest, ".cargo"), exist_ok=True)
     with open(os.path.join(dest, ".cargo", "config.toml"), "w") as fh:
         fh.write("[net]\noffline = true\n")
